@@ -225,3 +225,12 @@ Proof.
   - unfold p_run. eapply Hgen; [|reflexivity|exact Hr]. discriminate.
   - unfold p_run. eapply Hgen; [|reflexivity|exact Hr]. discriminate.
 Qed.
+
+(* a history of calls against one evaluator: the model's evaluator state is its options only, so the i-th answer of any
+   history is the answer a fresh evaluator gives to the i-th call alone *)
+Definition call := (env * bsprov * ctx * flag)%type.
+Definition answer re_ok re_match o (x : call) : res outcome :=
+  let '(E, P, c, f) := x in run re_ok re_match o E P c f.
+Lemma history_answers re_ok re_match o (h : list call) i x :
+  nth_error h i = Some x -> nth_error (map (answer re_ok re_match o) h) i = Some (answer re_ok re_match o x).
+Proof. intros. apply map_nth_error. assumption. Qed.
